@@ -49,7 +49,7 @@ def main():
         if rc != 0:
             rc, out = sh(f'git apply --3way {diff}', cwd=wt)
         assert rc == 0, 'patch does not apply: ' + out
-        rc, out = sh('git diff HEAD -- src', cwd=wt)
+        rc, out = sh('git add -N src >/dev/null 2>&1; git diff HEAD -- src', cwd=wt)
         patch_text = out
         if os.path.exists(eq):
             rc1, after = sh(f'{PY} {local} 2>/dev/null', cwd=wt, env=env, timeout=1800)
